@@ -561,6 +561,30 @@ def run(chk: Check) -> None:
                 chk.fail("client-jar-path", f"cookie set with Path={cp!r}: request {rp!r} carried {got!r}, expected {want!r}",
                          {"cookie_path": cp, "request_path": rp})
             chk.case(("jar-e2e", cp, rp), True)
+    # several Set-Cookie headers for one key in ONE response: the jar applies them in order (the last one decides)
+    import itertools as _it
+    for seq in _it.product(["set:1", "set:2", "del"], repeat=2):
+        for seq3 in ([seq] + [seq + (x,) for x in ("set:3", "del")]):
+            @Request.application
+            def app4(request, seq3=seq3):
+                if request.path == "/__set":
+                    r = Response("ok")
+                    for step in seq3:
+                        if step == "del":
+                            r.delete_cookie("k")
+                        else:
+                            r.set_cookie("k", step[4:])
+                    return r
+                return Response(request.cookies.get("k", "-"))
+            c = Client(app4)
+            c.set_cookie("k", "0")
+            c.get("/__set")
+            want = "-" if seq3[-1] == "del" else seq3[-1][4:]
+            got = c.get("/").get_data(as_text=True)
+            if got != want:
+                chk.fail("client-jar-order", f"one response with {list(seq3)} for cookie k: the next request carried {got!r}, expected {want!r}",
+                         {"steps": list(seq3)})
+            chk.case(("jar-order", seq3), True)
     # ... and with a Domain (IDNA-encoded by dump_cookie) on internationalised host names
     for dom, setter, asks in [("bücher.example", "bücher.example", [("bücher.example", "vw"), ("sub.bücher.example", "v-"), ("xbücher.example", "--"), ("example", "--")]),
                               ("a.b", "x.a.b", [("x.a.b", "vw"), ("a.b", "v-"), ("y.a.b", "v-"), ("xa.b", "--")])]:
